@@ -79,6 +79,9 @@ def run_cicada(line=None, script=None, timeout=6, files=None, args=()):
 
 
 def match_obligation(k, o):
+    if k.get('bounded_area'):
+        # a finding of the bounded engine: identified by the part of the code the failing input exercises (and the input class)
+        return o['name'].startswith('BOUNDED:') and (o.get('fn') or '').startswith(k['bounded_area'])
     pat = k.get('obligation', '')
     if pat.endswith('*'):
         return o['name'].startswith(pat[:-1])
@@ -106,6 +109,28 @@ def violates(w, r):
         got = [x for x in (r['stderr'] if w.get('fd_where') == 'stderr' else r['stdout']).split() if x.isdigit()]
         if got != w['expect_fdset']:
             return True, 'program saw descriptors %s, expected %s' % (got, w['expect_fdset'])
+    if 'expect_stdout_any' in w and r['stdout'] not in w['expect_stdout_any']:
+        return True, 'stdout %r is none of the expected %r' % (r['stdout'][:200], w['expect_stdout_any'])
+    if 'expect_stdout_prefix' in w and not r['stdout'].startswith(w['expect_stdout_prefix']):
+        return True, 'stdout %r does not start with %r' % (r['stdout'][:200], w['expect_stdout_prefix'])
+    if 'expect_stdout_contains' in w and w['expect_stdout_contains'] not in r['stdout']:
+        return True, 'stdout %r does not contain %r' % (r['stdout'][:200], w['expect_stdout_contains'])
+    if 'expect_stdout_last_line_not' in w:
+        last = (r['stdout'].strip().split('\n') or [''])[-1]
+        if last == w['expect_stdout_last_line_not']:
+            return True, 'last stdout line is %r' % last
+    if 'expect_no_stdout_line' in w and w['expect_no_stdout_line'] in r['stdout'].split('\n'):
+        return True, 'stdout has the line %r (the command ran)' % w['expect_no_stdout_line']
+    if w.get('expect_home_tilde'):
+        ls = r['stdout'].split('\n')
+        h = ls[-2] if len(ls) >= 2 else ''
+        want = ['[%s]' % h, '[%s/x]' % h, '[a~]', '[~]', '[~]', h, '']
+        if ls != want:
+            return True, 'stdout %r != expected %r' % (ls, want)
+    if 'expect_only_files' in w:
+        extra = [f for f in r.get('listing', []) if f not in w['expect_only_files'] and f != 'w.sh']
+        if extra:
+            return True, 'files %r were created' % extra
     if 'expect_stdout_last_line' in w:
         last = (r['stdout'].strip().split('\n') or [''])[-1]
         if last != w['expect_stdout_last_line']:
